@@ -3,6 +3,7 @@ CONSTANTS
   MaxIn = 3
   MaxColl = 2
   MaxOut = 2
+  Eras = {"alonzo", "babbage"}
 INIT Init
 NEXT Next
 INVARIANTS Laws ResultsOK
